@@ -232,7 +232,7 @@ def run(ctx):
         vec = fixed[i % len(fixed)] if i < len(fixed) and ctx.shard == 0 else random_vector(rnd, 16)
         layer_bulk(ctx, im, vec, nids if i < 4 else nids // 10)
     # (c) injected
-    nvec = ctx.n(2500, 400000)
+    nvec = ctx.n(8000, 400000)
     for i in range(nvec):
         vec = random_vector(rnd)
         layer_injected(ctx, im, vec)
@@ -250,7 +250,7 @@ def run(ctx):
         [Lit("x", "x")] * 4,
         [Lit(True and 1, "1"), Lit("a", "a"), Lit(1, "1")],
     ]
-    nrep = ctx.n(40, 20000)
+    nrep = ctx.n(120, 20000)
     for i in range(nrep):
         labels = pools[i % len(pools)] if i < 2 * len(pools) else [rnd.choice(rnd.choice(pools)) for _ in range(rnd.randint(2, 8))]
         vec = [rnd.choice(["1", "2", "3", "0", "0.5", "10", "2.5"]) for _ in labels]
